@@ -27,6 +27,9 @@ DEFAULTS = [
     ("obj", "Leaf", '{v: 1, s: "a"}'), ("objempty", "Leaf", "{}"), ("objenum", "WithEnum", "{k: B}"), ("objlist", "WithList", "{xs: [1, 2]}"),
     ("objobj", "Outer", "{leaf: {v: 2}}"), ("listobj", "[Leaf]", '[{v: 1}, {s: "z"}]'), ("nonnull", "Int!", "7"), ("id", "ID", '"abc"'), ("idint", "ID", "5"),
     ("blobobj", "Blob", "{a: 1}"), ("objwithdefaults", "Inner", "{}"), ("enumsoftkw", "Soft", "type"), ("listenumsoftkw", "[Soft!]", "[match, case]"), ("nonnullenum", "Kind!", "A"),
+    # an explicit null as the default of a list-typed field / as an inner list of a nested list
+    ("listtypenull", "[String!]", "null"), ("listlistnull", "[[Int]]", "null"), ("listlistnullinner", "[[Int]]", "[[1], null]"), ("listlistnullitem", "[[Int]]", "[[null, 2], []]"),
+    ("listenumnull", "[Kind]", "[null, A]"),
     # values named like the attributes every Enum member has
     ("enumresname", "Res", "name"), ("enumresvalue", "Res", "value"), ("listenumres", "[Res!]", "[value, name, names]"), ("nonnullenumres", "Res!", "value"),
 ]
